@@ -781,4 +781,167 @@ theorem sg_release_unused_segments_spec : release_unused_segments_Spec := by
 /-- **`sys_trim`** keeps the invariant and the user chunks -/
 theorem sg_sys_trim_spec : sys_trim_Spec := sg_sys_trim_of_release sg_release_unused_segments_spec
 
+/-! ## `sys-addseg` -/
+
+theorem sg_pad_seg : pad_request SIZEOF_SEGMENT = 48 := by decide
+
+/-- where `add_segment` puts the record chunk: over the foot word of the old `top` (80 bytes before the segment
+end), or over the old `top` itself when that has only 16 bytes -/
+theorem sg_addseg_csp {top topsize oe : Nat} (h16 : oe % 16 = 0) (hoe : top + topsize + 80 = oe) (hlim : oe ≤ 2 ^ 64)
+    (hts : topsize % 16 = 0) (hts0 : 16 ≤ topsize) :
+    addseg_csp top oe = if topsize < 32 then top else top + topsize := by
+  unfold addseg_csp
+  simp only [sg_pad_seg, SIZEOF_USIZE_eq, MALLOC_ALIGNMENT_eq, MEM_OFFSET_eq, MIN_CHUNK_SIZE_eq]
+  rw [align_offset_usize_eq _ (by omega)]
+  split <;> split <;> omega
+
+/-- `add_segment` up to and including the fencepost loop, on the table as a set: the new `top` and its foot word
+in the fresh mapping, the record chunk `R` at `csp`, `k` fenceposts after it -/
+theorem sg_addseg_pre {s S s1 : St} (w : WFS s) (hS : S.h = s.h)
+    {g0 : Seg} {rest : List Seg} {pre post : List Ent} {x f : Ent}
+    (hsegs : s.segs = g0 :: rest) (hes : s.h.ents = pre ++ [x, f] ++ post)
+    (hxa : x.addr = s.h.top) (hxs : x.size = s.h.topsize) (hxs16 : 16 ≤ s.h.topsize)
+    (hfa : f.addr = s.h.top + s.h.topsize) (hfs : f.size = 80)
+    (hgb : g0.base ≤ s.h.top) (hgt : s.h.top + s.h.topsize + 80 = g0.base + g0.size)
+    {tbase tsize : Nat} (hfr : ∀ g ∈ s.segs, tbase + tsize ≤ g.base ∨ g.base + g.size ≤ tbase)
+    (hpage : tbase % 4096 = 0) (hlim : tbase + tsize ≤ 2 ^ 64) (hts : tsize % 4096 = 0) (hts2 : 96 ≤ tsize)
+    (hinit : init_top S tbase (tsize - 80) = .ok s1)
+    {csp : Nat} (hcsp : (csp = s.h.top + s.h.topsize ∧ 32 ≤ s.h.topsize) ∨ (csp = s.h.top ∧ s.h.topsize = 16))
+    {h1 h2 : Heap} {nf : Nat} (eR : writeHead s1.h csp 48 true true = .ok h1)
+    (eF : fences 64 h1 (csp + 48) (g0.base + g0.size) 0 = .ok (h2, nf)) :
+    s1 = { S with h := s1.h, trim_check := DEFAULT_TRIM_THRESHOLD } ∧
+    h2 = { s.h with top := tbase, topsize := tsize - 80, ents := h2.ents } ∧ entsOk h2.ents = true ∧
+    nf = (g0.base + g0.size - (csp + 48)) / 8 - 1 ∧
+    ∃ pfR, ∀ z, z ∈ h2.ents ↔
+      z = { addr := tbase, size := tsize - 80, cin := false, pin := true, pfoot := 0 } ∨
+      z = { addr := tbase + (tsize - 80), size := 80, cin := false, pin := false, pfoot := 0 } ∨
+      z = { addr := csp, size := 48, cin := true, pin := true, pfoot := pfR } ∨
+      z ∈ sgFenceList ((g0.base + g0.size - (csp + 48)) / 8 - 1) (csp + 48) ∨
+      (z ∈ s.h.ents ∧ (z.addr < csp ∨ g0.base + g0.size ≤ z.addr)) := by
+  have hg0 : g0 ∈ s.segs := by rw [hsegs]; exact List.mem_cons_self
+  obtain ⟨d1, d2, d3⟩ := sg_segsOk_cons w.segs hsegs
+  have hd0 := d3 g0 List.mem_cons_self
+  have hfresh := sg_fresh_ents w hfr
+  have hside := hfr g0 hg0
+  have hok := w.ents
+  rw [hes] at hok
+  have hok2 : entsOk (pre ++ x :: f :: post) = true := by simpa using hok
+  obtain ⟨o1, o2, o3, o4, o5⟩ := entsOk_mid2 hok2
+  -- where the old headers lie relative to the window
+  have hold : ∀ z ∈ s.h.ents, z.addr + z.size ≤ s.h.top ∨ z = x ∨ z = f ∨ g0.base + g0.size ≤ z.addr := by
+    intro z hz
+    rw [hes] at hz
+    simp only [List.mem_append, List.mem_cons, List.not_mem_nil, or_false] at hz
+    rcases hz with (h | h | h) | h
+    · have := o1 z h; omega
+    · exact Or.inr (Or.inl h)
+    · exact Or.inr (Or.inr (Or.inl h))
+    · have := o5 z h; omega
+  have hpos0 : ∀ z ∈ s.h.ents, 0 < z.size := entsOk_pos w.ents
+  obtain ⟨hA, hB, eA, eB, hs1⟩ := sg_init_top_ok hinit (by omega) (by omega)
+  -- the two writes of `init_top`
+  obtain ⟨a1, a2, a3⟩ := sg_writeHead_tab eA (by show entsOk S.h.ents = true; rw [hS]; exact w.ents) (by omega) (by
+    intro y hy hlt
+    have hy' : y ∈ s.h.ents := by rw [← hS]; exact hy
+    have := hpos0 y hy'
+    rcases hfresh y hy' with h | h <;> omega)
+  have hpfA : pfootAt ({ S.h with top := tbase, topsize := tsize - 80 } : Heap).ents tbase = 0 := by
+    apply pfootAt_none
+    apply findEnt_none
+    intro y hy hya
+    have hy' : y ∈ s.h.ents := by rw [← hS]; exact hy
+    have := hpos0 y hy'
+    rcases hfresh y hy' with h | h <;> omega
+  rw [hpfA] at a3
+  have a3' : ∀ z, z ∈ hA.ents ↔ z = { addr := tbase, size := tsize - 80, cin := false, pin := true, pfoot := 0 } ∨ z ∈ s.h.ents := by
+    intro z
+    rw [a3 z]
+    show _ ∨ (z ∈ S.h.ents ∧ _) ↔ _
+    rw [hS]
+    constructor
+    · rintro (h | ⟨h, _⟩)
+      · exact Or.inl h
+      · exact Or.inr h
+    · rintro (h | h)
+      · exact Or.inl h
+      · refine Or.inr ⟨h, ?_⟩
+        have := hpos0 z h
+        rcases hfresh z h with h' | h' <;> omega
+  obtain ⟨b1, b2, b3⟩ := sg_writeHead_tab eB a2 (by omega) (by
+    intro y hy hlt
+    rcases (a3' y).1 hy with h | h
+    · subst h; simp only; omega
+    · have := hpos0 y h
+      rcases hfresh y h with h' | h' <;> omega)
+  have hpfB : pfootAt hA.ents (tbase + (tsize - 80)) = 0 := by
+    apply pfootAt_none
+    apply findEnt_none
+    intro y hy hya
+    rcases (a3' y).1 hy with h | h
+    · subst h; simp only at hya; omega
+    · have := hpos0 y h
+      rcases hfresh y h with h' | h' <;> omega
+  rw [hpfB] at b3
+  have b3' : ∀ z, z ∈ hB.ents ↔ z = { addr := tbase, size := tsize - 80, cin := false, pin := true, pfoot := 0 } ∨
+      z = { addr := tbase + (tsize - 80), size := 80, cin := false, pin := false, pfoot := 0 } ∨ z ∈ s.h.ents := by
+    intro z
+    rw [b3 z, a3' z]
+    constructor
+    · rintro (h | ⟨h | h, _⟩)
+      · exact Or.inr (Or.inl h)
+      · exact Or.inl h
+      · exact Or.inr (Or.inr h)
+    · rintro (h | h | h)
+      · refine Or.inr ⟨Or.inl h, ?_⟩
+        subst h; simp only; omega
+      · exact Or.inl h
+      · refine Or.inr ⟨Or.inr h, ?_⟩
+        have := hpos0 z h
+        rcases hfresh z h with h' | h' <;> omega
+  have hs1h : s1.h = hB := by rw [hs1]
+  rw [hs1h] at eR
+  -- the record chunk
+  obtain ⟨c1, c2, c3⟩ := sg_writeHead_tab eR b2 (by omega) (by
+    intro y hy hlt
+    rcases (b3' y).1 hy with h | h | h
+    · subst h; simp only at hlt ⊢; omega
+    · subst h; simp only at hlt ⊢; omega
+    · have := hpos0 y h
+      rcases hold y h with h' | h' | h' | h'
+      · omega
+      · subst h'; omega
+      · subst h'; omega
+      · omega)
+  generalize pfootAt hB.ents csp = pfR at c3
+  have c3' : ∀ z, z ∈ h1.ents ↔
+      z = { addr := tbase, size := tsize - 80, cin := false, pin := true, pfoot := 0 } ∨
+      z = { addr := tbase + (tsize - 80), size := 80, cin := false, pin := false, pfoot := 0 } ∨
+      z = { addr := csp, size := 48, cin := true, pin := true, pfoot := pfR } ∨
+      (z ∈ s.h.ents ∧ (z.addr < csp ∨ g0.base + g0.size ≤ z.addr)) := by
+    intro z
+    rw [c3 z, b3' z]
+    have hz := hold z
+    have hp := hpos0 z
+    grind
+  -- the fenceposts
+  obtain ⟨f1, f2, f3, f4⟩ := sg_fences 64 eF c2 (by
+    intro y hy
+    rcases (c3' y).1 hy with h | h | h | h
+    · subst h; simp only; omega
+    · subst h; simp only; omega
+    · subst h; simp only; omega
+    · have := hpos0 y h.1
+      rcases hold y h.1 with h' | h' | h' | h'
+      · omega
+      · subst h'; omega
+      · subst h'; omega
+      · omega) (by omega) (by omega)
+  refine ⟨by rw [hs1h]; exact hs1, ?_, f2, by omega, pfR, ?_⟩
+  · rw [f1, c1, b1, a1]
+    show _ = ({ s.h with top := tbase, topsize := tsize - 80, ents := h2.ents } : Heap)
+    rw [← hS]
+  · intro z
+    rw [f3 z, c3' z]
+    grind
+
 end TinyVerif.Dl
